@@ -127,11 +127,12 @@ def handle (op : String) (j : Json) : Except String Json := do
     let init ← (← (← j.getObjVal? "init").getArr?).toList.mapM valOfJson
     let tags ← (← (← j.getObjVal? "tags").getArr?).toList.mapM fun t => t.getInt?
     let loop ← (← j.getObjVal? "loop").getBool?
+    let tagParam := (j.getObjVal? "tagparam").toOption != some (Json.bool false)
     let steps ← (← (← j.getObjVal? "steps").getArr?).toList.mapM stepOfJson
     let rx ← rxOfJson (← j.getObjVal? "rx")
     let runs : List (Int × List Outcome) := tags.map fun t =>
       (t, runHist rx (fun _ => none) init
-        { stmt := bareStmt "Ev" false params [("t", .int t)], evName := "Ev", loop := loop } steps)
+        { stmt := bareStmt "Ev" false params (if tagParam then [("t", .int t)] else []), evName := "Ev", loop := loop } steps)
     let per : List Json := (List.range steps.length).map fun n =>
       let outs := runs.map fun (t, os) => (t, os.getD n .idle)
       if outs.any (fun p => p.2 == .fail) then Json.str "err"
